@@ -108,7 +108,7 @@ class Explorer:
         """Run fn(self) on every feasible path.  Returns list of
         (trail, result).  Sets self.complete = False when a budget was hit."""
         global CUR
-        work = [[]]
+        work = [([], False)]
         results = []
         t0 = time.perf_counter()
         prev = CUR
@@ -121,7 +121,8 @@ class Explorer:
                     self.complete = False
                     self.stats.incomplete += 1
                     break
-                prefix = work.pop()
+                prefix, tainted = work.pop()
+                self.path_tainted = tainted
                 self.prefix = prefix
                 self.pos = 0
                 self.trail = []
@@ -161,6 +162,8 @@ class Explorer:
             return False
         if self.pos < len(self.prefix):
             d = self.prefix[self.pos]
+            if not isinstance(d, bool):
+                raise Unmodelled("non-deterministic re-execution (expected a decision)")
             self.pos += 1
             self.solver.add(cond if d else z3.Not(cond))
             self.trail.append(d)
@@ -172,12 +175,14 @@ class Explorer:
         can_t = rt != z3.unsat
         can_f = rf != z3.unsat
         if rt == z3.unknown or rf == z3.unknown:
-            # cannot prune: follow both (sound for "holds" verdicts; a
-            # violation found on such a path is filtered by replay)
-            self.stats.undecided += 0
+            # cannot prune: follow both sides.  Sound for "holds" verdicts
+            # (a superset of the feasible paths is explored); a mismatch found
+            # on such a path may be spurious, so the path is marked tainted and
+            # harnesses report it as undecided, not as a candidate.
+            self.path_tainted = True
         if can_t and can_f:
             self.stats.forks += 1
-            self.new_alts.append(self.trail + [False])
+            self.new_alts.append((self.trail + [False], self.path_tainted))
             d = True
         elif can_t:
             d = True
@@ -190,6 +195,23 @@ class Explorer:
         self.solver.add(cond if d else z3.Not(cond))
         self.trail.append(d)
         return d
+
+    def recorded(self, compute):
+        """A value that must be identical on every re-execution of this path
+        prefix (e.g. a model value): stored in the trail on first execution,
+        read back from the prefix on replay."""
+        if self.pos < len(self.prefix):
+            ent = self.prefix[self.pos]
+            if not (isinstance(ent, tuple) and ent[0] == "val"):
+                raise Unmodelled("non-deterministic re-execution (expected a recorded value)")
+            self.pos += 1
+            self.trail.append(ent)
+            return ent[1]
+        v = compute()
+        self.pos += 1
+        self.trail.append(("val", v))
+        self.prefix = list(self.trail)
+        return v
 
     def assume(self, cond):
         if isinstance(cond, bool):
@@ -290,7 +312,8 @@ def lift(x):
             from fractions import Fraction
             fr = Fraction(repr(xf))
             return z3.RealVal(str(fr))
-        if xf == int(xf) and abs(xf) < 2**53 and False:
+        if xf == xf and xf not in (float("inf"), float("-inf")) and xf == int(xf) and abs(xf) < 2**53:
+            # integral floats are integers in the integer model (2/1 == 2.0 == 2)
             return z3.IntVal(int(xf))
         return z3.Int("lit_" + repr(xf))
     if isinstance(x, complex):
@@ -424,6 +447,25 @@ class SymBool:
     __index__ = _unm("__index__")
 
 
+def int_truediv(a, b):
+    """`/` on the integer model: uninterpreted, except for the identities
+    pymbolic.flatten applies when statements are built (x/1 -> x, 0/x -> 0)."""
+    a1, b1 = z3.simplify(a), z3.simplify(b)
+    if z3.is_int_value(b1) and b1.as_long() == 1:
+        return a
+    if z3.is_int_value(a1) and a1.as_long() == 0:
+        return z3.IntVal(0)
+    return uf("truediv", INT, INT, INT)(a, b)
+
+
+def int_pow(a, b):
+    """`**` on the integer model: uninterpreted, except x**1 -> x (flatten)."""
+    b1 = z3.simplify(b)
+    if z3.is_int_value(b1) and b1.as_long() == 1:
+        return a
+    return uf("pow", INT, INT, INT)(a, b)
+
+
 def _py_floordiv(a, b):
     # Python floor division on ints via z3's Euclidean div
     q = a / b  # z3 Int '/' is div (Euclidean)
@@ -473,7 +515,7 @@ class SymNum:
     def _div(a, b):
         if a.sort() == REAL:
             return a / b
-        return uf("truediv", INT, INT, INT)(a, b)
+        return int_truediv(a, b)
 
     def __truediv__(self, o): return self._bin(o, SymNum._div)
     def __rtruediv__(self, o): return self._bin(o, SymNum._div, True)
@@ -482,7 +524,7 @@ class SymNum:
     def _pow(a, b):
         if a.sort() == REAL:
             return uf("powr", REAL, REAL, REAL)(a, b)
-        return uf("pow", INT, INT, INT)(a, b)
+        return int_pow(a, b)
 
     def __pow__(self, o, mod=None):
         if mod is not None:
@@ -568,13 +610,17 @@ def realize_int(x):
     if t.sort() != INT:
         raise Unmodelled("realising a non-integer")
     n = 0
-    while True:
+
+    def pick():
         r = ex.check()
         if r != z3.sat:
             if r == z3.unknown:
                 raise BudgetExceeded()
             raise Abort()
-        v = ex.model().eval(t, model_completion=True).as_long()
+        return ex.model().eval(t, model_completion=True).as_long()
+
+    while True:
+        v = ex.recorded(pick)
         if ex.branch(t == v):
             return v
         n += 1
@@ -723,13 +769,13 @@ def sym_eq(a, b):
             return False
         return x == y
     if type(a) is not type(b):
-        # 1 vs 1.0 vs True are observably different objects for our purpose
-        if isinstance(a, (int, float)) and isinstance(b, (int, float)) \
-                and not isinstance(a, bool) and not isinstance(b, bool):
+        # numbers compare by value (int vs float is outside the claim: the
+        # integer model has one numeric sort); bools only equal bools
+        if _is_plain_number(a) and _is_plain_number(b):
             import math
             if isinstance(a, float) and math.isnan(a):
                 return isinstance(b, float) and math.isnan(b)
-            return a == b and (isinstance(a, float) == isinstance(b, float))
+            return bool(a == b)
         return False
     if isinstance(a, float):
         import math
@@ -742,6 +788,21 @@ def sym_eq(a, b):
     except ImportError:
         pass
     return bool(a == b)
+
+
+def _is_plain_number(x):
+    if isinstance(x, bool):
+        return False
+    if isinstance(x, (int, float)):
+        return True
+    from fractions import Fraction
+    if isinstance(x, Fraction):
+        return True
+    try:
+        import numpy as np
+        return isinstance(x, (np.integer, np.floating)) and not isinstance(x, np.bool_)
+    except ImportError:
+        return False
 
 
 def z3_and(xs):
@@ -808,11 +869,15 @@ def concretize(val, model):
 def uf_table(model, f, default_ok=True):
     """Extract (entries, else_value) of an uninterpreted function from a
     model as plain Python data."""
-    interp = model[f]
-    if interp is None:
+    try:
+        interp = model[f]
+        if interp is None:
+            return {}, 0
+        n_entries = interp.num_entries()
+    except z3.Z3Exception:
         return {}, 0
     entries = {}
-    for i in range(interp.num_entries()):
+    for i in range(n_entries):
         e = interp.entry(i)
         args = tuple(model_value(model, e.arg_value(j))
                      for j in range(e.num_args()))
